@@ -140,7 +140,7 @@ CASES = [
      "        if getattr(self, \"_frozen\", None) is not None:\n            code = self._frozen\n        else:\n            code = deepcopy(self)\n            code.freeze()\n            self._frozen = code\n        try:\n            code.check()\n        except AssertionError as e:\n            raise TypeError(e)\n\n        return types.CodeType(\n            code.co_argcount,\n            code.co_posonlyargcount,\n            code.co_kwonlyargcount,\n            code.co_nlocals,\n            code.co_stacksize,\n            code.co_flags,\n            code.co_code,\n            code.co_consts,\n            code.co_names,\n            code.co_varnames,\n            code.co_filename,\n            code.co_name,\n            code.co_qualname,", "fresh-object"),
     ("m-c12-backward-startswith", "C12", "fire", "xdis/bytecode.py", "\"JUMP_BACKWARD\" in opname", "opname.startswith(\"JUMP_BACKWARD\")", "C04-R1"),
     ("m-c20-linedelta-boundary", "C20", "fire", "xdis/cross_dis.py", "                if signed_line_delta and line_delta >= 0x80:", "                if signed_line_delta and line_delta > 0x80:", "C05-R2"),
-    ("m-c13-long-noref", "C13", "fire", "xdis/unmarshal.py", "        if n < 0:\n            d = long(d * -1)", "        if n < 0:\n            return long(-d)", "C01-R3"),
+    ("m-c13-long-noref", "C13", "fire", "xdis/unmarshal.py", "        if n < 0:\n            d = to_long(d * -1)", "        if n < 0:\n            return to_long(-d)", "C01-R3"),
     ("m-c19-divmod-256", "C19", "fire", "xdis/codetype/code30.py", "            while offset_diff >= 256:\n                co_lnotab += bytearray([255, 0])\n                offset_diff -= 255\n",
      "            if offset_diff >= 256:\n                extra, offset_diff = divmod(offset_diff, 256)\n                co_lnotab += bytearray([255, 0]) * extra\n", "conservation:address"),
     ("s-c19-divmod-255", "C19", "silent", "xdis/codetype/code30.py", "            while offset_diff >= 256:\n                co_lnotab += bytearray([255, 0])\n                offset_diff -= 255\n",
@@ -161,7 +161,7 @@ CASES = [
     ("m-c14-load-bytes-key", "C14", "fire", "xdis/marsh.py", "        if not isinstance(c, str):\n            # type codes are kept as text; a binary file gives bytes\n            c = c.decode(\"latin-1\")\n", "", "dispatch-key-is-text"),
     ("m-c14-ord-py3", "C14", "fire", "xdis/marsh.py", "    return c if isinstance(c, int) else ord(c)", "    return c if PYTHON3 else ord(c)", "integer-from-bytes"),
     ("s-c14-load-chr-key", "C14", "silent", "xdis/marsh.py", "            c = c.decode(\"latin-1\")\n        try:\n            return self.dispatch[c](self)", "            c = c.decode(\"ascii\", \"replace\")\n        try:\n            return self.dispatch[c](self)", ""),
-    ("m-c10-long-sign", "C10", "fire", "xdis/unmarshal.py", "        if n < 0:\n            d = long(d * -1)", "        if n > 0:\n            d = long(d * -1)", "long:sign"),
+    ("m-c10-long-sign", "C10", "fire", "xdis/unmarshal.py", "        if n < 0:\n            d = to_long(d * -1)", "        if n > 0:\n            d = to_long(d * -1)", "long:sign"),
     ("m-c10-long-weight", "C10", "fire", "xdis/unmarshal.py", "            d += md << j * 15", "            d += md << j * 16", "long:accumulation"),
     ("m-c14-long-sign", "C14", "fire", "xdis/marsh.py", "        sign = 1\n        if size < 0:\n            sign = -1\n            size = -size\n        x = 0\n        for i in range(size):\n            d = _r_short(self)", "        sign = 1\n        size = abs(size)\n        if size < 0:\n            sign = -1\n        x = 0\n        for i in range(size):\n            d = _r_short(self)", "long:sign"),
     ("m-c14-long-weight", "C14", "fire", "xdis/marsh.py", "            d = _r_short(self)\n            x = x | (d << (i * 15))", "            d = _r_short(self)\n            x = x | (d << (i * 16))", "long:accumulation"),
